@@ -62,6 +62,7 @@ type wOp struct {
 	Hist    []string `json:"hist,omitempty"`  // resolve: versions written to the node's own store for this DID, oldest first
 	Local   string   `json:"local,omitempty"` // absent | active | deactivated: expectation for the oracle (the model recomputes it from hist)
 	Allow   bool     `json:"allow,omitempty"`
+	Fault   bool     `json:"fault,omitempty"` // resolve: the node's SQL connection has been closed (storage fault) before this resolution
 	KeyOK   bool     `json:"keyok,omitempty"` // did:jwk / did:key: the library decoded the identifier into a supported public key
 	Resps   []wResp  `json:"resps,omitempty"`
 	Again   string   `json:"again,omitempty"` // outcome of a second, identical resolution
@@ -111,6 +112,8 @@ func (f *wRT) RoundTrip(r *http.Request) (*http.Response, error) {
 }
 
 type wNode struct {
+	faulty bool
+	sqlDB  interface{ Close() error }
 	m     *Module
 	rt    *wRT
 	db    *didsubject.SqlDIDDocumentManager
@@ -122,6 +125,8 @@ type wNode struct {
 func wErr(err error) string {
 	m := err.Error()
 	switch {
+	case strings.Contains(m, "database is closed") && !errors.Is(err, resolver.ErrNotFound) && !errors.Is(err, resolver.ErrDeactivated):
+		return "db"
 	case errors.Is(err, resolver.ErrDIDMethodNotSupported):
 		return "method-not-supported"
 	case errors.Is(err, resolver.ErrNotFound):
@@ -169,6 +174,9 @@ func wNewNode(t *testing.T, op wOp) *wNode {
 		panic("configure: " + err.Error())
 	}
 	n.db = didsubject.NewDIDDocumentManager(eng.GetSQLDatabase())
+	if sqlDB, err := eng.GetSQLDatabase().DB(); err == nil {
+		n.sqlDB = sqlDB
+	}
 	return n
 }
 
@@ -237,7 +245,14 @@ func wExec(t *testing.T, node **wNode, op *wOp) (line string) {
 	case "resolve":
 		id := did.DID{Method: wunhx(op.M), ID: wunhx(op.ID)}
 		n := *node
-		n.wApplyHistory(id, op.Hist)
+		if !n.faulty {
+			n.wApplyHistory(id, op.Hist)
+		}
+		if op.Fault && !n.faulty {
+			// storage fault: from now on every SQL statement of this node fails ("sql: database is closed")
+			n.sqlDB.Close()
+			n.faulty = true
+		}
 		out, reqs := n.resolveOnce(id, op.Allow, op.Resps)
 		// library verdict for the key methods (data for the model), and a second identical resolution
 		if id.Method == "jwk" || id.Method == "key" {
@@ -362,6 +377,25 @@ func wGenerate(seed int64, thorough bool) []wOp {
 				op.M, op.ID, op.Tag = whx([]string{"example", "ion", "ethr", "peer", "x", "webs"}[r.Intn(6)]), whx("abc"), "other-method"
 			}
 			ops = append(ops, op)
+		}
+		// fault phase: the SQL connection is closed, then managed (active / deactivated), never-seen and remote DIDs are resolved
+		var seenWeb []wOp
+		for _, o := range ops[len(ops)-per:] {
+			if o.Tag == "web" && len(o.Hist) > 0 {
+				seenWeb = append(seenWeb, o)
+			}
+		}
+		for k := 0; k < 12 && len(seenWeb) > 0; k++ {
+			o := seenWeb[r.Intn(len(seenWeb))]
+			o.Fault, o.Allow, o.Again, o.Tag = true, r.Intn(3) == 0, "", "web-dbfault"
+			// the web server would happily serve an ACTIVE document for this DID
+			o.Resps = []wResp{{St: 200, Ct: whx("application/did+json"), Body: "doc:" + whx("did:web:"+wunhx(o.ID))}}
+			ops = append(ops, o)
+		}
+		for k := 0; k < 3; k++ {
+			id := fmt.Sprintf("fresh%d.example", k)
+			ops = append(ops, wOp{Op: "resolve", M: whx("web"), ID: whx(id), Fault: true, Tag: "web-dbfault",
+				Resps: []wResp{{St: 200, Ct: whx("application/json"), Body: "doc:" + whx("did:web:"+id)}}})
 		}
 	}
 	return ops
